@@ -24,6 +24,7 @@ import (
 	"strings"
 
 	"github.com/matrix-org/gomatrixserverlib/spec"
+	"github.com/tidwall/gjson"
 	"golang.org/x/crypto/ed25519"
 )
 
@@ -474,7 +475,29 @@ func NewPowerLevelContentFromEvent(event PDU) (c PowerLevelContent, err error) {
 // parseIntegerPowerLevels unmarshals directly to PowerLevelContent, since that will kick up an
 // error if one of the power levels isn't an int64.
 func parseIntegerPowerLevels(contentBytes []byte, c *PowerLevelContent) error {
-	return json.Unmarshal(contentBytes, c)
+	if err := json.Unmarshal(contentBytes, c); err != nil {
+		return err
+	}
+	// encoding/json skips a null instead of refusing it, but null is not an integer.
+	content := gjson.ParseBytes(contentBytes)
+	for _, key := range []string{"invite", "ban", "kick", "redact", "users_default", "events_default", "state_default"} {
+		if level := content.Get(key); level.Exists() && level.Type == gjson.Null {
+			return fmt.Errorf("power level %q is not an integer", key)
+		}
+	}
+	for _, key := range []string{"users", "events", "notifications"} {
+		var err error
+		content.Get(key).ForEach(func(name, level gjson.Result) bool {
+			if level.Type == gjson.Null {
+				err = fmt.Errorf("power level %q in %q is not an integer", name.String(), key)
+			}
+			return err == nil
+		})
+		if err != nil {
+			return err
+		}
+	}
+	return nil
 }
 
 func parsePowerLevels(contentBytes []byte, c *PowerLevelContent) error {
